@@ -37,8 +37,10 @@ def flatten(ir, t, v, prefix, delim='.', indices=None, out=None):
         return out
     if v is NIL:
         raise NotExpressible('a query string cannot spell an explicit null')
-    if 'attr' in t or 'xmldata' in t:
+    if 'xmldata' in t:
         raise NotExpressible('XML-only member')
+    if 'attr' in t:
+        return flatten(ir, t['attr'], v, prefix, delim, indices, out)       # an attribute member is spelled like any member
     if 'prim' in t or 'enum' in t:
         out.append((prefix, leaf_text(t, v)))
         return out
